@@ -4,6 +4,7 @@ import (
 	"fmt"
 	"os"
 	"sort"
+	"strings"
 
 	"github.com/piotrnar/gocoin/lib/btc"
 	"verif/chainkit"
@@ -43,6 +44,11 @@ func runScenario(name string, alloc bool, sub uint64, size int) {
 		body = func(s *scen) { s.mixed = true; genRandom(s, size) }
 	} else if name == "siblings" {
 		body = func(s *scen) { genSiblings(s, size) }
+	} else if name == "random-headers" {
+		body = func(s *scen) { genRandomHeaders(s, size) }
+	} else if name == "random-headers-mixed-bits" {
+		genesisBits = heavyBits
+		body = func(s *scen) { s.mixed = true; genRandomHeaders(s, size) }
 	} else if c := corpusByName(name); c != nil {
 		body, opts, genesisBits = c.run, c.opts, c.genesisBits
 	} else {
@@ -69,7 +75,7 @@ func runScenario(name string, alloc bool, sub uint64, size int) {
 			f.Close()
 		}
 	}
-	if !s.dead && (name == "random" || name == "random-mixed-bits" || name == "siblings") {
+	if !s.dead && (name == "random" || name == "random-mixed-bits" || name == "siblings" || strings.HasPrefix(name, "random-headers")) {
 		r.Sample(map[string]interface{}{"scenario": name, "alloc": alloc, "subseed": sub, "blocks": len(s.blocks), "steps": s.step, "last_ops": tail(s.ops, 6)})
 	}
 }
@@ -614,12 +620,13 @@ func (s *scen) makeBlockL(parent *rBlock, kind string, allEver map[outpoint]rCoi
 
 // ---------------------------------------------------------------------------------------- random trees
 
-func genRandom(s *scen, size int) {
+// randomTree grows the block tree of the random streams above a fresh base chain (nothing of it is delivered yet).
+func randomTree(s *scen, size int) (upper []*rBlock) {
 	g := s.g
 	s.reorder = true
 	baseTip := s.base(101 + g.Intn(8))
 	if s.dead {
-		return
+		return nil
 	}
 	allEver := map[outpoint]rCoin{}
 	for _, b := range s.blocks {
@@ -629,7 +636,7 @@ func genRandom(s *scen, size int) {
 			}
 		}
 	}
-	upper := []*rBlock{}
+	upper = []*rBlock{}
 	pInvalid := g.Pick(0, 10, 25, 40)
 	for j := 0; j < size; j++ {
 		var parent *rBlock
@@ -657,6 +664,15 @@ func genRandom(s *scen, size int) {
 			kind = invalidKinds[g.Intn(len(invalidKinds))]
 		}
 		upper = append(upper, s.makeBlock(parent, kind, allEver))
+	}
+	return upper
+}
+
+func genRandom(s *scen, size int) {
+	g := s.g
+	upper := randomTree(s, size)
+	if s.dead {
+		return
 	}
 	// delivery: random order, mostly parents first; children tried early are refused and retried later
 	pending := append([]*rBlock{}, upper...)
